@@ -217,6 +217,24 @@ func c12Programs(tier string) []*Spec {
 		sp.Clients = [][]Op{ops}
 		out = append(out, sp)
 	}
+	// a narrow container: one bar's first decorator only fits partly (it is cut), the synchronised decorator behind it
+	// has no room left but still takes part in the column; the other bar reaches its synchronised cell
+	for _, rf := range []string{"manual", "auto"} {
+		sp := &Spec{Name: "c12-truncated-neighbour", Refresh: rf, Q: -1, Width: 20}
+		sp.Bars = []BarSpec{
+			{Total: 2, Pre: []DecorSpec{{Widths: []int{26}}, syncD(3)}, App: []DecorSpec{syncD(2)}},
+			{Total: 2, Pre: []DecorSpec{{Widths: []int{4}}, syncD(5)}, App: []DecorSpec{syncD(4)}},
+		}
+		sp.Main = []Op{{K: "add", B: 0}, {K: "add", B: 1}}
+		for i := 0; i < 2; i++ {
+			ops := completeOps(i, 2)
+			if rf == "manual" {
+				ops = append(ops, Op{K: "refresh"}, Op{K: "refresh"})
+			}
+			sp.Clients = append(sp.Clients, ops)
+		}
+		out = append(out, sp)
+	}
 	// user code that keeps one initialised WC value and builds every decorator of a column from it
 	for _, rf := range []string{"manual", "auto"} {
 		sp := &Spec{Name: "c12-shared-wc", Refresh: rf, Q: -1}
